@@ -65,9 +65,18 @@ h_build_treeseq(tsk_table_collection_t *t, tsk_treeseq_t *ts, h_tables_t *T)
     t->sequence_length = SEQ_L;
     T->L = SEQ_L;
     T->nn = NN;
+#ifdef FIXED_TABLE
+    /* one concrete 4-node, 4-edge, 5-tree sequence with an internal sample, a gap and an empty last tree */
+    static const tsk_id_t ft_p[4] = { 1, 2, 3, 3 }, ft_c[4] = { 0, 0, 1, 2 };
+    static const double ft_l[4] = { 0, 4, 0, 2 }, ft_r[4] = { 3, 7, 7, 7 };
+    tp = 2;
+    sp = 1;
+    ne = 4;
+#else
     tp = sym_choice("tprof", TP_LO, TP_HI);
     sp = sym_choice("sprof", SP_LO, SP_HI);
     ne = NE_MIN == NE ? NE : sym_choice("ne", NE_MIN, NE);
+#endif
     T->ne = ne;
     for (j = 0; j < NN; j++) {
         T->time[j] = h_time_profiles[tp][j];
@@ -76,6 +85,16 @@ h_build_treeseq(tsk_table_collection_t *t, tsk_treeseq_t *ts, h_tables_t *T)
         sym_assume(ret == j);
     }
     for (j = 0; j < ne; j++) {
+#ifdef FIXED_TABLE
+        T->parent[j] = ft_p[j];
+        T->child[j] = ft_c[j];
+        T->left[j] = ft_l[j];
+        T->right[j] = ft_r[j];
+        ret = tsk_edge_table_add_row(
+            &t->edges, T->left[j], T->right[j], T->parent[j], T->child[j], NULL, 0);
+        sym_assume(ret == j);
+        continue;
+#endif
         T->parent[j] = sym_choice(sym_nm(nm, "p", j), 1, NN - 1);
         T->child[j] = sym_choice(sym_nm(nm, "c", j), 0, NN - 1);
         /* necessary for validity: prune concretely */
